@@ -1,1 +1,314 @@
-From Lou Require Import Model.Pass.
+(* C03 — the lemmas used by Properties/C03.v: the fuel of every loop of the models suffices. *)
+From Coq Require Import List ZArith Bool Lia ZifyBool NArith.
+From Lou Require Import Gen.GConst Gen.GChain Model.Table Model.Ref Model.Compile Model.Engine Model.Finish Model.Pass Model.BackPass Model.Hyph Model.Back.
+From Lou Require Import Proofs.EngineProofs Proofs.PassProofs.
+Import ListNotations.
+Local Open Scope Z_scope.
+
+(* ------------------------------------------------------------------ forward stage scanner *)
+
+Lemma do_action_newpos inp cap r m out pm o p np :
+  do_action inp cap r m out pm = (o, p, Some np) -> np = m_er m \/ np = m_end m.
+Proof.
+  unfold do_action.
+  destruct (copy_chars inp cap out pm (m_start m) (m_sr m)) as [[out1 pm1]|]; [|discriminate].
+  destruct (p_act r) as [cs| |].
+  - destruct (_ >? _); [discriminate|]. intros H. inversion H. left. reflexivity.
+  - intros H. inversion H. left. reflexivity.
+  - destruct (_ && _); [discriminate|].
+    destruct (copy_chars _ _ _ _ _ _) as [[out3 pm3]|]; [|discriminate].
+    intros H. inversion H. right. reflexivity.
+Qed.
+
+Definition smeasure (inp : list Z) (s : pstate) : Z :=
+  2 * (len inp - ps_pos s) + (if ps_inc s then 1 else 0).
+
+Lemma sstep_measure chain inp cap s s' :
+  ps_pos s < len inp -> sstep chain inp cap s = (s', true) ->
+  ps_pos s' <= len inp /\ smeasure inp s' < smeasure inp s.
+Proof.
+  intros Hp. unfold sstep, smeasure. cbv zeta.
+  assert (Hcopy :
+    (if len (ps_out s) + 1 >? cap then (s, false)
+     else (mkPS (ps_pos s + 1) (ps_out s ++ [nth_z inp (ps_pos s)]) (ps_pm s ++ [ps_pos s]) true (ps_trace s), true))
+    = (s', true) ->
+    ps_pos s' <= len inp /\
+    2 * (len inp - ps_pos s') + (if ps_inc s' then 1 else 0) <
+    2 * (len inp - ps_pos s) + (if ps_inc s then 1 else 0)).
+  { destruct (_ >? cap); [discriminate|]. intros H. inversion H. cbn [ps_pos ps_inc].
+    destruct (ps_inc s); lia. }
+  destruct (ps_inc s) eqn:Ei; [|exact Hcopy].
+  destruct (find_rule inp chain (ps_pos s)) as [[r m]|] eqn:Ef; [|exact Hcopy].
+  clear Hcopy.
+  apply find_rule_first_l in Ef. destruct Ef as (pre & post & _ & Ht & _).
+  apply match_shape_l in Ht.
+  destruct (do_action inp cap r m (ps_out s) (ps_pm s)) as [[o p] [np|]] eqn:Ea; [|discriminate].
+  apply do_action_newpos in Ea.
+  intros H. inversion H. cbn [ps_pos ps_inc].
+  destruct (np =? ps_pos s) eqn:En; cbn [negb]; lia.
+Qed.
+
+Lemma sloop_total kind chain is_space inp cap : forall fuel s,
+  ps_pos s <= len inp -> smeasure inp s < Z.of_nat fuel ->
+  sloop kind chain is_space inp cap fuel s <> SOutOfFuel.
+Proof.
+  induction fuel as [|f IH]; intros s Hp Hm.
+  - unfold smeasure in Hm. destruct (ps_inc s); lia.
+  - cbn [sloop]. unfold sn. destruct (ps_pos s >=? len inp) eqn:E.
+    + unfold sfinish. discriminate.
+    + destruct (sstep chain inp cap s) as [s' go] eqn:Es. destruct go.
+      * apply sstep_measure in Es; [|lia]. apply IH; lia.
+      * unfold sfinish. discriminate.
+Qed.
+
+Lemma stage_bound_l : forall kind rules is_space inp cap,
+  sloop kind (pass_chain rules) is_space inp cap (S (2 * length inp + 1)) (mkPS 0 [] [] true []) <> SOutOfFuel.
+Proof.
+  intros kind rules is_space inp cap. apply sloop_total.
+  - cbn [ps_pos]. unfold len. lia.
+  - unfold smeasure. cbn [ps_pos ps_inc]. unfold len. lia.
+Qed.
+
+Lemma stage_total_l : forall kind rules is_space inp cap,
+  run_stage kind rules is_space inp cap <> SOutOfFuel.
+Proof.
+  intros kind rules is_space inp cap. unfold run_stage. apply sloop_total.
+  - cbn [ps_pos]. unfold len. lia.
+  - unfold smeasure, stage_fuel. cbn [ps_pos ps_inc]. unfold len. lia.
+Qed.
+
+(* ------------------------------------------------------------------ backward stage scanner *)
+
+Lemma bcopy_aux_len inp : forall cnt out pm from,
+  length (fst (bcopy_aux inp out pm from cnt)) = (length out + cnt)%nat.
+Proof.
+  induction cnt as [|c IH]; intros out pm from; cbn [bcopy_aux]; [cbn [fst]; lia|].
+  rewrite IH, app_length. cbn [length]. lia.
+Qed.
+
+Lemma bcopy_chars_len inp cap out pm a b out1 pm1 : len out <= cap ->
+  bcopy_chars inp cap out pm a b = Some (out1, pm1) -> len out <= len out1 <= cap.
+Proof.
+  intros Hc. unfold bcopy_chars. destruct (b >? a) eqn:E.
+  - destruct (len out + b - a >? cap) eqn:E1; [discriminate|]. intros H. injection H as H.
+    pose proof (bcopy_aux_len inp (Z.to_nat (b - a)) out pm a) as Hl. rewrite H in Hl.
+    cbn [fst] in Hl. unfold len in *. lia.
+  - intros H. injection H as <- <-. lia.
+Qed.
+
+Lemma bdo_action_ok inp cap r m out pm o p np : len out <= cap ->
+  bdo_action inp cap r m out pm = (o, p, Some np) ->
+  (len out <= len o <= cap) /\ (np = m_er m \/ np = m_end m).
+Proof.
+  intros Hc. unfold bdo_action.
+  destruct (bcopy_chars inp cap out pm (m_start m) (m_sr m)) as [[out1 pm1]|] eqn:E1; [|discriminate].
+  apply bcopy_chars_len in E1; [|exact Hc].
+  destruct (p_act r) as [cs| |].
+  - destruct (len out1 + len cs >? cap) eqn:E2; [discriminate|]. intros H. inversion H. subst.
+    split; [|left; reflexivity]. unfold len in *. rewrite app_length. lia.
+  - intros H. inversion H. subst. split; [lia|left; reflexivity].
+  - cbv zeta.
+    set (out2 := if len out1 - len out >? 0 then firstn (Z.to_nat (len out)) out1 else out1).
+    assert (H2 : len out <= len out2 <= cap).
+    { subst out2. destruct (len out1 - len out >? 0) eqn:E3; [|lia].
+      unfold len in *. rewrite firstn_length. lia. }
+    destruct (bcopy_chars inp cap out2 _ (m_sr m) (m_er m)) as [[out3 pm3]|] eqn:E4; [|discriminate].
+    apply bcopy_chars_len in E4; [|lia].
+    intros H. inversion H. subst. split; [lia|right; reflexivity].
+Qed.
+
+Lemma bdo_test_range inp : forall items pos sr er em sr' er',
+  0 <= pos -> -1 <= er <= len inp ->
+  bdo_test inp items pos sr er = Some (em, sr', er') ->
+  0 <= em <= len inp /\ -1 <= er' <= len inp.
+Proof.
+  induction items as [|it items IH]; intros pos sr er em sr' er' Hp He; cbn [bdo_test];
+    destruct (pos >? len inp) eqn:G; try discriminate.
+  - intros H. injection H as <- <- <-. lia.
+  - destruct it as [cs|k| |].
+    + destruct (bmatch_current inp pos cs); [|discriminate]. apply IH; [unfold len; lia|exact He].
+    + destruct (pos - k <? 0) eqn:Ek; [discriminate|]. apply IH; [lia|exact He].
+    + apply IH; [exact Hp|exact He].
+    + apply IH; [exact Hp|lia].
+Qed.
+
+Lemma bpass_test_range inp r pos m : 0 <= pos -> bpass_test inp r pos = Some m ->
+  -1 <= m_er m <= len inp /\ -1 <= m_end m <= len inp.
+Proof.
+  intros Hp. unfold bpass_test.
+  destruct (bdo_test inp (p_test r) pos (-1) (-1)) as [[[em sr] er]|] eqn:Et; [|discriminate].
+  apply bdo_test_range in Et; [|exact Hp|unfold len; lia].
+  destruct (sr =? -1); intros H; injection H as <-; cbn [m_er m_end]; lia.
+Qed.
+
+Lemma bfind_rule_test inp chain pos r m :
+  bfind_rule inp chain pos = Some (r, m) -> bpass_test inp r pos = Some m.
+Proof.
+  induction chain as [|r0 c IH]; cbn [bfind_rule]; [discriminate|].
+  destruct (bpass_test inp r0 pos) as [m0|] eqn:Et; [|exact IH].
+  intros H. injection H as <- <-. exact Et.
+Qed.
+
+(* the measure: (free room) * (length + 2) + (distance to the end, while the scanner may try rules) *)
+Definition bmeasure (inp : list Z) (cap : Z) (s : bpstate) : Z :=
+  (cap - len (bp_out s)) * (len inp + 2) + (if bp_inc s then len inp - bp_pos s + 1 else 0).
+
+Definition binv (inp : list Z) (cap : Z) (s : bpstate) : Prop :=
+  -1 <= bp_pos s <= len inp /\ (bp_inc s = true -> 0 <= bp_pos s) /\ len (bp_out s) <= cap.
+
+Lemma bsstep_measure chain inp cap s s' :
+  binv inp cap s -> bp_pos s < len inp -> bsstep chain inp cap s = (s', true) ->
+  binv inp cap s' /\ bmeasure inp cap s' < bmeasure inp cap s.
+Proof.
+  intros (Hp & Hi & Hc) Hlt. unfold bsstep, bmeasure, binv. cbv zeta.
+  assert (Hn : 0 <= len inp) by (unfold len; lia).
+  assert (Hcopy :
+    (if len (bp_out s) + 1 >? cap then (s, false)
+     else (mkBP (bp_pos s + 1) (bp_out s ++ [nth_z inp (bp_pos s)])
+                (set_nth (bp_pm s) (Z.to_nat (bp_pos s)) (len (bp_out s))) true (bp_trace s), true))
+    = (s', true) ->
+    (-1 <= bp_pos s' <= len inp /\ (bp_inc s' = true -> 0 <= bp_pos s') /\ len (bp_out s') <= cap) /\
+    (cap - len (bp_out s')) * (len inp + 2) + (if bp_inc s' then len inp - bp_pos s' + 1 else 0) <
+    (cap - len (bp_out s)) * (len inp + 2) + (if bp_inc s then len inp - bp_pos s + 1 else 0)).
+  { destruct (_ >? cap) eqn:E; [discriminate|]. intros H. inversion H. cbn [bp_pos bp_inc bp_out].
+    assert (Hl : len (bp_out s ++ [nth_z inp (bp_pos s)]) = len (bp_out s) + 1).
+    { unfold len. rewrite app_length. cbn [length]. lia. }
+    rewrite Hl. split; [lia|]. destruct (bp_inc s); lia. }
+  destruct (bp_inc s) eqn:Ei; [|exact Hcopy].
+  destruct (bfind_rule inp chain (bp_pos s)) as [[r m]|] eqn:Ef; [|exact Hcopy].
+  clear Hcopy. specialize (Hi eq_refl).
+  apply bfind_rule_test in Ef. apply bpass_test_range in Ef; [|exact Hi].
+  destruct (bdo_action inp cap r m (bp_out s) (bp_pm s)) as [[o p] [np|]] eqn:Ea; [|discriminate].
+  apply bdo_action_ok in Ea; [|exact Hc]. destruct Ea as (Hlen & Hnp).
+  intros H. inversion H. cbn [bp_pos bp_inc bp_out].
+  assert (Hmul : (cap - len o) * (len inp + 2) <= (cap - len (bp_out s)) * (len inp + 2)).
+  { apply Z.mul_le_mono_nonneg_r; lia. }
+  destruct (np >? bp_pos s) eqn:En; split; try lia.
+Qed.
+
+Lemma bsloop_total kind chain is_space inp cap : forall fuel s,
+  binv inp cap s -> bmeasure inp cap s < Z.of_nat fuel ->
+  bsloop kind chain is_space inp cap fuel s <> SOutOfFuel.
+Proof.
+  induction fuel as [|f IH]; intros s Hi Hm.
+  - exfalso. destruct Hi as (Hp & _ & Hc). unfold bmeasure in Hm.
+    assert (Hn : 0 <= len inp) by (unfold len; lia).
+    assert (0 <= (cap - len (bp_out s)) * (len inp + 2)) by (apply Z.mul_nonneg_nonneg; lia).
+    destruct (bp_inc s); lia.
+  - cbn [bsloop]. unfold bsn. destruct (bp_pos s >=? len inp) eqn:E.
+    + unfold bsfinish. discriminate.
+    + destruct (bsstep chain inp cap s) as [s' go] eqn:Es. destruct go.
+      * apply bsstep_measure in Es; [|exact Hi|lia]. destruct Es as (Hi' & Hm'). apply IH; [exact Hi'|lia].
+      * unfold bsfinish. discriminate.
+Qed.
+
+Lemma bstage_total_l : forall kind rules is_space inp cap, 0 <= cap ->
+  run_bstage kind rules is_space inp cap <> SOutOfFuel.
+Proof.
+  intros kind rules is_space inp cap Hc. unfold run_bstage. apply bsloop_total.
+  - unfold binv. cbn [bp_pos bp_inc bp_out]. unfold len. cbn [length]. lia.
+  - unfold bmeasure, bstage_fuel. cbn [bp_pos bp_inc bp_out]. unfold len. cbn [length].
+    rewrite Nat2Z.inj_succ, Nat2Z.inj_mul, !Nat2Z.inj_add, Z2Nat.id by exact Hc.
+    change (Z.of_nat 0) with 0. change (Z.of_nat 2) with 2. change (Z.of_nat 3) with 3.
+    nia.
+Qed.
+
+(* ------------------------------------------------------------------ backward main pass *)
+
+Lemma bloop_total t inp cap : forall fuel s,
+  (Z.to_nat (len inp - bs_pos s) < fuel)%nat -> bloop t inp cap fuel s <> BOutOfFuel.
+Proof.
+  induction fuel as [|f IH]; intros s Hf; [lia|].
+  cbn [bloop]. unfold bn. destruct (bs_pos s >=? len inp) eqn:E.
+  - unfold bfinish. discriminate.
+  - destruct (cell_char t (nth_z inp (bs_pos s))) as [c|]; [|discriminate].
+    destruct (_ >? cap).
+    + unfold bfinish. discriminate.
+    + apply IH. cbn [bs_pos]. lia.
+Qed.
+
+Lemma back_total_l : forall t inp cap, back_run t inp cap <> BOutOfFuel.
+Proof.
+  intros t inp cap. unfold back_run. apply bloop_total. cbn [bs_pos]. unfold len. lia.
+Qed.
+
+(* ------------------------------------------------------------------ the forward driver *)
+
+Lemma after_stage_some a r : r <> SOutOfFuel -> exists x, after_stage a r = Some (Some x).
+Proof.
+  destruct r as [consumed out pm tr|]; [|congruence]. intros _. cbn [after_stage].
+  destruct a as [[[o pmap] tr0]|]; eexists; reflexivity.
+Qed.
+
+Ltac step_pass :=
+  match goal with
+  | |- context [after_stage ?a (run_stage ?k ?r ?sp ?i ?c)] =>
+      let x := fresh "x" in
+      let Hx := fresh "Hx" in
+      destruct (after_stage_some a (run_stage k r sp i c) (stage_total_l k r sp i c)) as [x Hx];
+      rewrite Hx; clear Hx
+  end.
+
+Lemma forward_total_l : forall pt mode inp cap, forward pt mode inp cap <> DOutOfFuel.
+Proof.
+  intros pt mode inp cap. unfold forward. cbv zeta.
+  assert (Hs0 : exists acc0,
+    (if pt_corr pt then after_stage None (run_stage KCorrect (pt_correct pt) (fun _ => false) inp cap)
+     else Some None) = Some acc0).
+  { destruct (pt_corr pt); [|eexists; reflexivity]. step_pass. eexists; reflexivity. }
+  destruct Hs0 as [acc0 ->].
+  destruct (translate_ref (pt_main pt) mode _ cap) as [consumed cells pm tr| |] eqn:Et;
+    [|discriminate|exfalso; exact (engine_total_l _ _ _ _ Et)].
+  destruct (after_stage_some acc0 (SOk consumed cells pm tr)) as [x1 Hx1]; [discriminate|].
+  rewrite Hx1. cbv beta.
+  destruct (2 <=? num_passes pt); destruct (3 <=? num_passes pt); destruct (4 <=? num_passes pt);
+    cbv beta iota; repeat (step_pass; cbv beta iota);
+    match goal with |- context [DOk _ _ _ _] => idtac end;
+    repeat match goal with x : (list Z * list Z * list Z)%type |- _ => destruct x as [[? ?] ?] end;
+    discriminate.
+Qed.
+
+(* ------------------------------------------------------------------ hyphenation automaton *)
+
+Lemma fallback_cons t (a : char) (s : list char) :
+  fallback t (a :: s) = if is_state t s then s else fallback t s.
+Proof. reflexivity. Qed.
+
+Lemma fallback_cons_len t : forall (s : list char) (a : char), (length (fallback t (a :: s)) <= length s)%nat.
+Proof.
+  induction s as [|b s IH]; intros a; rewrite fallback_cons.
+  - destruct (is_state t []); cbn [fallback length]; lia.
+  - destruct (is_state t (b :: s)); [lia|]. specialize (IH b). cbn [length]. lia.
+Qed.
+
+Lemma fallback_shorter_l : forall t s, s <> [] -> (length (fallback t s) < length s)%nat.
+Proof.
+  intros t [|a s] H; [congruence|]. pose proof (fallback_cons_len t s a). cbn [length]. lia.
+Qed.
+
+Lemma next_state_fuel_gen t ch : forall k st f1 f2,
+  (length st <= k)%nat -> (length st < f1)%nat -> (length st < f2)%nat ->
+  next_state f1 t st ch = next_state f2 t st ch.
+Proof.
+  induction k as [|k IH]; intros st f1 f2 Hk H1 H2;
+    (destruct f1 as [|f1]; [lia|]); (destruct f2 as [|f2]; [lia|]); cbn [next_state];
+    destruct (is_state t (st ++ [ch])); try reflexivity;
+    destruct st as [|a st]; try reflexivity.
+  - cbn [length] in Hk. lia.
+  - pose proof (fallback_cons_len t st a) as Hl. cbn [length] in *. apply IH; lia.
+Qed.
+
+Lemma next_state_fuel_l : forall t st ch fuel,
+  (S (length st) < fuel)%nat ->
+  next_state fuel t st ch = next_state (S (S (length st))) t st ch.
+Proof.
+  intros t st ch fuel Hf. apply (next_state_fuel_gen t ch (length st)); lia.
+Qed.
+
+Print Assumptions stage_total_l.
+Print Assumptions stage_bound_l.
+Print Assumptions bstage_total_l.
+Print Assumptions back_total_l.
+Print Assumptions forward_total_l.
+Print Assumptions fallback_shorter_l.
+Print Assumptions next_state_fuel_l.
